@@ -118,6 +118,11 @@ def t_importance_k(E):
             E.eq(lw.at(i), SReal(T.cdens(spec(i)[0], spec(i)[1]) - spec(i)[2])),
             T.agrees(T.tr_choices(spec(i)[0]), spec(i)[1]))))
         E.prove(f"C26.ImportanceK.run_smc.{tag}.K_particles", (lw.n if not isinstance(lw.n, int) else z3.IntVal(lw.n)) == K.t)
+        R = z3.RealSort()
+        lml = E.method(pc, "get_log_marginal_likelihood_estimate")
+        E.prove(f"C26.ParticleCollection.lml.{tag}.is_logsumexp_minus_log_K", E.eq(lml, SReal(
+            E.ctx.fn("logsumexp", U, R)(E.I.to_u(lw)) - E.ctx.fn("log", R, R)(z3.ToReal(K.t)))))
+        E.refutable(f"smc.importance_k.lml.{tag}", E.eq(lml, SReal(E.ctx.fn("logsumexp", U, R)(E.I.to_u(lw)))))
     E.refutable("smc.importance_k", E.eq(lw.at(z3.IntVal(0)), 0.0))
 
 
